@@ -13,12 +13,12 @@ Definition excluded (s : state) (e : N) (c : cid) (o : oid) : bool :=
   | None => false
   end.
 
-Lemma status_class_rank st :
-  status_class (rank st) = match st with Available => None | _ => Some (class_of_status st) end.
+Lemma status_class_rank (st : Spec.status) :
+  status_class (rank st) = if status_eqb st Available then None else Some (class_of_status st).
 Proof. destruct st; reflexivity. Qed.
 
 (* ---- Exists *)
-Theorem exists_status s ign c o :
+Theorem exists_status s (ign : bool) c o :
   wf_state s -> excluded s (if ign then 0 else epoch s) c o = false ->
   status_of_class (view_exists s ign c o) = Some (status_at s (if ign then 0 else epoch s) c o).
 Proof.
@@ -58,6 +58,18 @@ Definition ec_agrees (st : status) (r : ecres) : bool :=
   | _, _ => false
   end.
 
+Lemma ec_loop_inl b rule idx ch : forall last found r,
+  ec_loop b ch rule idx last found = inl r -> ec_agrees Available r = true.
+Proof.
+  induction ch as [|[id en] ch IH]; intros l f r; simpl; [discriminate|].
+  destruct (negb (opt_eqb (h_ecr (e_hdr en)) (Some rule))).
+  - destruct (otype_eqb (h_typ (e_hdr en)) TLink).
+    + intros H; inversion H; reflexivity.
+    + apply IH.
+  - destruct idx as [i|]; destruct (h_eci (e_hdr en)) as [pi|]; try apply IH.
+    destruct (pi =? i); [intros H; inversion H; reflexivity|apply IH].
+Qed.
+
 Theorem ec_status s c o rule idx :
   wf_state s -> excluded s (epoch s) c o = false ->
   ec_agrees (match bucket s c with None => NotFound | Some _ => status_at s (epoch s) c o end)
@@ -68,19 +80,11 @@ Proof.
   assert (Wb : wfc b) by (eapply wf_bucket; eauto).
   unfold status_in. destruct (cgc b); [reflexivity|]. simpl in X.
   rewrite (object_status_spec b _ o Wb X), status_class_rank.
-  destruct (status_k max_nesting b (epoch s) o); try reflexivity.
-  destruct (ec_loop b (children_of b o) rule idx None None) as [r|[last found]].
-  - (* the loop itself only returns a part or split information *)
-    revert r. generalize (@None oid) at 1. generalize (@None (N * oid)).
-    induction (children_of b o) as [|[id en] ch IH]; intros f l r; simpl; [discriminate|].
-    destruct (negb (opt_eqb (h_ecr (e_hdr en)) (Some rule))).
-    + destruct (otype_eqb (h_typ (e_hdr en)) TLink).
-      * intros H; inversion H; reflexivity.
-      * apply IH.
-    + destruct idx as [i|]; destruct (h_eci (e_hdr en)) as [pi|]; try apply IH.
-      destruct (pi =? i); [intros H; inversion H; reflexivity|apply IH].
-  - destruct idx as [i|]; destruct found as [[m fid]|]; simpl;
-      try (destruct (children_of b o), (type_of b o) as [[| | |]|], last; reflexivity).
+  destruct (status_k max_nesting b (epoch s) o); try reflexivity. simpl.
+  destruct (ec_loop b (children_of b o) rule idx None None) as [r|[last found]] eqn:L.
+  - eapply ec_loop_inl; eauto.
+  - destruct idx as [i|]; destruct found as [[m fid]|]; simpl; try reflexivity;
+      destruct (children_of b o), (type_of b o) as [[| | |]|], last; reflexivity.
 Qed.
 
 (* ---- IsLocked *)
